@@ -696,7 +696,10 @@ def mutate_line(r, text):
     for _ in range(n):
         pos = r.randrange(0, len(text) + 1)
         ins = r.choice([' ', ',', '\t', '(', ')', '#', '\x0b', '\x0c', '\x1c', '\x1d', '\x1e', '\x1f', '\r', "'", ':',
-                        '=', '  ', ' , ', '\x00', '\x7f', '%', '\\', '"'])
+                        '=', '  ', ' , ', '\x00', '\x7f', '%', '\\', '"',
+                        # quoted characters: kept whole by the lexer whatever they hold
+                        "','", "'#'", "'('", "')'", "' '", "'''", "'\t'", "'\\\\'", "'\\n'", "'\\x41'", "'\\''", "'\\'", "''", "'a'",
+                        " ','", "','+1", "('#')", "# it's"])
         if r.random() < 0.02:
             ins = r.choice(['\n', 'é', ' ', ' ', '\x85'])
         text = text[:pos] + ins + text[pos:]
